@@ -3,6 +3,9 @@ use crate::plan::*;
 use crate::sim::Ctx;
 pub mod demux;
 pub mod dtls;
+pub mod hostile;
+pub mod hostile_gen;
+pub mod hostile_mut;
 pub mod icestun;
 pub mod latch;
 pub mod pc_close;
@@ -26,6 +29,7 @@ pub async fn dispatch(ctx: &Ctx) {
         "pc_connect" => pc_connect::run(ctx).await,
         "pc_close" => pc_close::run(ctx).await,
         "srtp_gate" => srtpgate::run(ctx).await,
+        "hostile" => hostile::run(ctx).await,
         other => ctx.violate("HARNESS.scenario", format!("unknown scenario {other}")),
     }
 }
@@ -49,6 +53,7 @@ pub fn generate(prop: &str, seed: u64, idx: u64, tier: Tier) -> Option<Plan> {
         "C10" => Some(pc_connect::generate(prop, seed, idx, tier)),
         "C17" => Some(pc_close::generate(prop, seed, idx, tier)),
         "C14" => Some(srtpgate::generate(prop, seed, idx, tier)),
+        "C07" => Some(hostile::generate(prop, seed, idx, tier)),
         _ => None,
     }
 }
@@ -65,6 +70,7 @@ pub fn budget(prop: &str, tier: Tier) -> u64 {
         ("C10", t) => pc_connect::budget(prop, t),
         ("C17", t) => pc_close::budget(prop, t),
         ("C14", t) => srtpgate::budget(prop, t),
+        ("C07", t) => hostile::budget(prop, t),
         ("C01", Tier::Quick) => 20_000,
         ("C01", Tier::Thorough) => 600_000,
         ("C12", Tier::Quick) => 6000,
